@@ -170,4 +170,4 @@ def tasks(tier, seed):
 def run_task(task):
     S = scenarios(task['tier'], task['seed'])
     i, k = task['slice']
-    return run_scenarios(S[i::k], matkit.mat_patches, timeout_ms=30000, seed=task['seed'], wall_s=300)
+    return run_scenarios(S[i::k], matkit.mat_patches, timeout_ms=30000, seed=task['seed'], wall_s=300, div_zero='fork')
